@@ -54,7 +54,7 @@ TEXT = {
                 note="Explicit numbers are not generated under MaintainCaptureOrder/ECMAScript, duplicates not under ECMAScript (outside the documented rule).", ref="§6 C17"),
     "C06": dict(technique="property-based testing (rapid): differential against Go's regexp on the common RE2 syntax, all 22 Matcher methods, reflect.DeepEqual",
                 text="F-re2 ASTs (no quantified nullable sub-pattern) compiled by regexp.Compile and compat.Compile(p, RE2) x ASCII / multi-byte / invalid-UTF-8 inputs x n in {-1,0,1,2,3,100}: every method of compat.Matcher must return exactly what Go returns (nil-ness, byte offsets, -1 pairs, empty-match rule).",
-                note="Go's regexp is the reference, except for one shape on which Go itself is wrong (regexp/syntax factors `B|(?i:b)x` ignoring the case flag): patterns with a cased letter in two branches of one alternation under different case sensitivity are discarded and counted. Three recorded gaps (Unicode \\b, named-group numbering, (?i)\\W containing k/s) are excluded by narrow predicates and reported as KNOWN-FINDING; case-folded negated POSIX classes / categories are outside the common syntax. An adapter panic caused by a match timeout is a discard.", ref="§6 C06"),
+                note="Go's regexp is the reference, except for one shape on which Go itself is wrong (regexp/syntax factors `B|(?i:b)x` ignoring the case flag): patterns with a cased letter in two branches of one alternation under different case sensitivity are discarded and counted. Four recorded gaps (Unicode \\b, named-group numbering, U+0130 under IgnoreCase, the auto-atomic \\B rule) are excluded by narrow predicates and reported as KNOWN-FINDING; case-folded negated POSIX classes / categories are outside the common syntax. An adapter panic caused by a match timeout is a discard.", ref="§6 C06"),
     "C13": dict(technique="property-based testing (rapid): metamorphic in the limit L (result(L) in {result(unlimited), ErrBacktrackingStackLimit}, monotone in L) + capacity invariant via the scan-stats hook",
                 text="Deep-nesting ASTs, chains of 3-14 single-character loops (left-to-right, RightToLeft, inside lookbehinds) and corpus patterns x inputs up to 60 runes x ~18 limits per case (0..200 dense, 256, 1000, 100000, -1): equality with the unlimited result or the limit error, no panic, allocated backtracking stack <= L for pooled and private interpreter states, monotonicity, and the Regexp answers a probe like a fresh one after every call.",
                 note="Capacity is read through verif-tagged accessors (VerifScanStats, VerifPooledTrackCap).", ref="§6 C13"),
